@@ -41,7 +41,7 @@ def jobs(tier, seed):
         for mask in range(2048):
             c = dict(cfg)
             c['autos'] = mask
-            oo = {'players': True, 'show': SHOW, 'probe': True}
+            oo = {'players': True, 'show': SHOW, 'probe': True, 'post_hand_show': True}
             oo.update(o)
             out.append({'family': fam, 'cfg': c, 'opts': oo, 'state_cap': 300000, 'time_cap': 900})
     # larger configurations under a few automation tuples (incl. the ones the suite uses)
